@@ -322,3 +322,32 @@ def inline_new_temps(tree, expected):
                                 continue
                     i += 1
     return removed
+
+
+# ---------------------------------------------------------------------------------------------------------------------
+# one assignment per statement
+# ---------------------------------------------------------------------------------------------------------------------
+def split_tuple_assigns(tree):
+    """`a, b = E1, E2` becomes `a = E1; b = E2` when no right-hand side reads a target (then the two forms are equivalent): the rules see one
+    binding per statement whichever way the source is written.  Returns the number of statements split."""
+    n = 0
+    for node in ast.walk(tree):
+        for field in ("body", "orelse", "finalbody"):
+            body = getattr(node, field, None)
+            if not (isinstance(body, list) and body and all(isinstance(s, ast.stmt) for s in body)):
+                continue
+            new = []
+            for st in body:
+                if isinstance(st, ast.Assign) and len(st.targets) == 1 and isinstance(st.targets[0], ast.Tuple) and isinstance(st.value, ast.Tuple) \
+                        and len(st.targets[0].elts) == len(st.value.elts) and all(isinstance(t, ast.Name) for t in st.targets[0].elts) \
+                        and not any(isinstance(v, ast.Starred) for v in st.value.elts):
+                    tn = {t.id for t in st.targets[0].elts}
+                    used = {x.id for v in st.value.elts for x in ast.walk(v) if isinstance(x, ast.Name)}
+                    if not (tn & used):
+                        for t, v in zip(st.targets[0].elts, st.value.elts):
+                            new.append(ast.copy_location(ast.Assign(targets=[t], value=v, lineno=t.lineno), t))
+                        n += 1
+                        continue
+                new.append(st)
+            setattr(node, field, new)
+    return n
